@@ -126,7 +126,7 @@ def vec_close(a, b, tol):
     return None
 
 
-NUMERIC_KEYS = ("flow_rates", "comp_rates", "initial_population", "infectious_multipliers")
+NUMERIC_KEYS = ("flow_rates", "comp_rates", "initial_population", "infectious_multipliers", "y1", "f1", "err")
 
 
 def compare_obs(mo, io, tol=1e-9, keys=None, traj_tol=1e-7):
